@@ -122,6 +122,39 @@ def run(ctx):
     Obligation(ctx, 'R12.3').run(fb, 'bezier_by_line_intersections: closed abscissa filter, one report per root, parameter pairing', th_bl, judge_bl,
                                  allowed_raises=('AssertionError', 'ValueError'))
 
+    # two DISTINCT roots: each is judged on its own (a root beyond the far end must not hide a later one that is on the line)
+    def th_bl2(it):
+        rh = [Rat.sym('rho1'), Rat.sym('rho2')]
+        it.call_hooks['polytools.polyroots01'] = lambda it2, a, k: list(rh)
+        it.call_hooks['bezier.polyroots01'] = it.call_hooks['polytools.polyroots01']
+        r = it.call(it.closure_of('bezier.bezier_by_line_intersections'), [tuple(Bz), tuple(Ln)], {})
+        d = Ln[1] - Ln[0]
+        length = apply_fn('abs', d)
+        out = []
+        for rho in rh:
+            x = ((bernstein(Bz, rho) - Ln[0]) * (length / d)).real()
+            out.append((rho, path_sign(it, x), path_sign(it, x - length), x / length))
+        return list(r), out
+
+    def judge_bl2(v):
+        r, roots = v
+        for rho, s0, s1, lt in roots:
+            rep = [p_ for p_ in r if to_rat(p_[0]).equals(rho)]
+            if len(rep) > 1:
+                return False, 'the root %s is reported %d times' % (short(rho, 10), len(rep))
+            if rep:
+                if not (s0 <= frozenset('0+') and s1 <= frozenset('-0')):
+                    return False, 'the root %s is reported without knowing 0 <= abscissa <= line_length' % short(rho, 10)
+                ok, d_ = decide_equal(rep[0][1], lt)
+                if ok is not True:
+                    return ok, 'line parameter of %s: %s' % (short(rho, 10), d_)
+            elif not (s0 == frozenset('-') or s1 == frozenset('+')):
+                return False, ('the root %s is dropped although this path does not know its abscissa to be strictly outside [0, line_length] '
+                               '(it was never examined, or the filter is not closed)' % short(rho, 10))
+        return True, ''
+    Obligation(ctx, 'R12.3').run(fb, 'bezier_by_line_intersections: two distinct roots are judged independently', th_bl2, judge_bl2,
+                                 allowed_raises=('AssertionError', 'ValueError'), opts={'presign': [(Rat.sym('rho1') - Rat.sym('rho2'), '-+')]})
+
     fa = mdl.func('path.Arc.intersect')
 
     def th_ab(it):
